@@ -99,7 +99,7 @@ let ev_str (p : prog) (e : event) : string option =
   | ENextCall i -> if kind (int_of_z i) = 'U' then Some (Printf.sprintf "N%d" (int_of_z i)) else None
   | ENextRet i -> if kind (int_of_z i) = 'U' then Some (Printf.sprintf "n%d" (int_of_z i)) else None
   | EAbort i -> if kind (int_of_z i) = 'U' then Some (Printf.sprintf "A%d" (int_of_z i)) else None
-  | ERecovered (_, _) -> None
+  | ERecovered (_, _, _) -> None
   | EObs (i, st, wr, sz, ab) ->
     let i = int_of_z i in
     (match kind i with
@@ -215,8 +215,8 @@ let () =
                | Done c | Panicked c ->
                  let tr = c.c_tr in
                  (match fo with Panicked _ -> bump "escaped_panic" | _ -> ());
-                 if List.exists (function ERecovered (_, _) -> true | _ -> false) tr then bump "recovered_panic";
-                 if List.exists (function ERecovered (_, true) -> true | _ -> false) tr then bump "recovered_after_write";
+                 if List.exists (function ERecovered (_, _, _) -> true | _ -> false) tr then bump "recovered_panic";
+                 if List.exists (function ERecovered (_, true, _) -> true | _ -> false) tr then bump "recovered_after_write";
                  if List.exists (function EAbort _ -> true | _ -> false) tr then bump "aborted_chain";
                  let ne = count_if (function EEnter _ -> true | _ -> false) tr in
                  if ne < nh then bump "wildcard_miss_or_cut";
